@@ -59,9 +59,6 @@ def Leaf.isReloc : Leaf → Bool
   | .val _ _ _ e => e.label.isSome
   | .bf .. => false
 
-/-- `mask` of the bit-field arms: `(1L << bit_width) - 1` -/
-def bfMask (bw : Nat) : Nat := (2 ^ bw - 1) % 18446744073709551616
-
 /-- the value both back ends put into a bit-field: converted to `_Bool` first if that is the member's type -/
 def bfVal (kind : SKind) (e : Expr) : Nat := if kind = .bool then (if e.nz then 1 else 0) else u64 e.ival
 
